@@ -56,9 +56,14 @@ def check_normalised(raw, out, mode, eps=2.0 ** -52):
         eps = 2.0 ** -23
     all_zero_out = all(float(v) == 0.0 for v in out.values())
     if mode == 'delta':
-        hi, lo = max(vals), min(vals)
-        must_zero = may_zero = (hi == lo)
-        factor = Q(hi) - Q(lo) if not must_zero else Q(0)
+        exact_vals = [Q(v) for v in vals]          # exact comparison (np.float32 == Q would compare in single precision)
+        hi, lo = max(exact_vals), min(exact_vals)
+        must_zero = (hi == lo)
+        # mixed precision: the library's own max - min may round to zero (or not) when the values differ in the last float32 bits
+        may_zero = must_zero or float(hi - lo) <= 4 * eps * max(abs(float(hi)), abs(float(lo)))
+        if not must_zero and may_zero and not all_zero_out:
+            return _finite_ratio_check(raw, out, mode, eps)
+        factor = hi - lo if not must_zero else Q(0)
     else:
         if exact:
             factor = sum((Q(v) for v in vals), Q(0))
@@ -75,6 +80,13 @@ def check_normalised(raw, out, mode, eps=2.0 ** -52):
             else:
                 sums.update([sum(fl), sum(reversed(fl))])
             sums.add(math.fsum(fl))
+            if any(isinstance(v, np.float32) for v in vals) and len(fl) <= 5:
+                # single-precision accumulation (NumPy keeps float32 when Python scalars are mixed in) rounds differently
+                for perm in itertools.permutations(vals):
+                    acc = np.float32(0.0)
+                    for x in perm:
+                        acc = np.float32(acc + np.float32(x))
+                    sums.add(float(acc))
             must_zero = sums == {0.0}
             may_zero = 0.0 in sums or abs(math.fsum(fl)) <= 4 * len(fl) * eps * math.fsum(abs(x) for x in fl)
             factor = None
@@ -113,6 +125,18 @@ def check_normalised(raw, out, mode, eps=2.0 ** -52):
         kmax = max(ks, key=lambda k: rf[k])
         if of[kmax] < max(of.values()) - 64 * eps * max(1.0, sabs):   # ties may differ by mixed-precision rounding
             return f'ratio:{mode}', f'order reversed: {out!r} for {raw!r}'
+    return None
+
+
+def _finite_ratio_check(raw, out, mode, eps):
+    """Ambiguous (near-)zero normaliser and a non-zero output: values must be finite and proportional to the raw values."""
+    ks = list(raw)
+    of = {k: float(out[k]) for k in ks}
+    rf = {k: float(raw[k]) for k in ks}
+    big = max(abs(x) for x in of.values()) * max(abs(x) for x in rf.values()) + 1e-300
+    for a, b in zip(ks, ks[1:]):
+        if abs(of[a] * rf[b] - of[b] * rf[a]) > 1e-3 * big:
+            return f'ratio:{mode}', f'ratios not preserved: {out!r} vs {raw!r}'
     return None
 
 
